@@ -174,6 +174,12 @@ func collectorRules(c *core.Ctx, s *Stage, col, w *Goroutine, vals, result *ir.T
 			"the collector sends %d values on the result channel (want exactly 1, before its close, capacity >= 1; found capacity %s)", n, short(chanCap(result)))
 	}
 	for _, p := range an.Segs[nil] {
+		if p.To == nil && p.Exit == ir.ExitPanic {
+			// a path that dies delivers nothing; the engine has no counting argument over the workers that would show an
+			// assertion such as `len(vals) != par` after wg.Wait() unreachable, so it is reported for what it is
+			c.Fail("single-result", "fork.Fold#collector-panic", lastPos(p), "a path of the collector ends in an explicit panic before anything is delivered (its unreachability is not shown): no value, and the process dies")
+			continue
+		}
 		v := accQ.ValueAt(p, len(p.Steps))
 		if p.To == nil && rotated && p.Exit == ir.ExitReturn {
 			// bottom-tested loop skipped (no partial expected): the result is the monoid's Empty() itself
